@@ -4,6 +4,7 @@ import PlinioVerif.Gen.Fields
 /-! Line driver for the C17 correspondence.
 
 `resume proto=<R|L> ops=[t,s:Class.field=3,m:0,o,...] pre=[o,o]`
+(protocol R in its minimal form: persisted options are not re-applied on the fresh wrapper)
 runs the history on the checkpoint model over the *generated* field table (`t` = training step that
 changes every trainable field, `s:Class.field=v` = option call writing value id `v` (0 = constructor
 default), `m:b` = mode switch, `o` = observer call (summary / str / export / cost / get_cost); `pre` =
@@ -62,10 +63,10 @@ def handle (line : String) : String :=
     | some proto, some ops, some pre =>
       let s := run σG initSt ops
       let fresh := run σG initSt pre
-      let t := if proto = "R" then resumeR σG fresh ops s else resumeL σG fresh s
+      let t := if proto = "R" then resumeRmin σG fresh ops s else resumeL σG fresh s
       let all := List.range nF
       let sd := save σG s
-      let target := if proto = "R" then run σG fresh (cfgOf ops) else { fresh with training := s.training }
+      let target := if proto = "R" then run σG fresh (cfgMin σG ops) else { fresh with training := s.training }
       let keysOk := (missingKeys σG all sd target).isEmpty && (unexpectedKeys σG all sd target).isEmpty
       let diff := all.filter fun i => σG.kind i != .recomputed && t.val i != s.val i
       let sem := natSem nF
